@@ -22,11 +22,11 @@ RULE = ("G9: configurations derived from the demo one by a parameter vector (ren
 ASSUME = ["the generated package follows the documented conventions by construction and is validated by the harness before judging "
           "(a failing validation is inconclusive, never a violation)",
           "known findings of the sub-checks (third-party '$' anchor) apply under every configuration"]
-BUDGET = {"quick": 6, "thorough": 160}
+BUDGET = {"quick": 8, "thorough": 160}
 SUBS = {
     "c01": {"n": 2500}, "c02": {"n": 1200}, "c03": {"n": 1500}, "c04": {"n": 2500},
     "c05": {"n": 1200, "order": "server_first", "pair": 0}, "c06": {"n": 2500}, "c07": {"n": 1500},
-    "c08": {"universes": 8, "searches": 32, "brackets": False}, "c11": {"universes": 6, "searches": 24},
+    "c08": {"universes": 8, "searches": 32, "brackets": False}, "c11": {"universes": 8, "searches": 30},
 }
 
 
@@ -50,7 +50,7 @@ def run(snap, tier, seed, t0, replay):
         params = confgen.gen_params(rng, variant)
         if k >= 1:
             # stratification: every run covers the features the family is about, whatever the seed
-            params["mapping_style"] = ["swap", "demo", "identity"][k % 3]
+            params["mapping_style"] = ["swap", "demo", "identity", "partial"][(k * 3) % 4]
             if k % 2:
                 params["keys"]["ext"] = ["format", "suffix"][(k // 2) % 2]
             if k % 4 == 1:
@@ -78,7 +78,8 @@ def run(snap, tier, seed, t0, replay):
               "sub-check runs judged": (c.get("sub_runs", 0), nconf * len(SUBS)),
               "configurations validated": (c.get("validated", 0), nconf * len(SUBS)),
               "renamed leaf key configurations": (sum(1 for p in params_list if p["keys"]["ext"] != "ext"), 1),
-              "non-idempotent mapping configurations": (sum(1 for p in params_list if p["mapping_style"] == "swap"), 1 if nconf >= 6 else 0)}
+              "non-idempotent mapping configurations": (sum(1 for p in params_list if p["mapping_style"] == "swap"), 1 if nconf >= 6 else 0),
+              "partial mapping table configurations": (sum(1 for p in params_list if p["mapping_style"] == "partial"), 1 if nconf >= 6 else 0)}
     for sub in SUBS:
         floors["evaluations of %s" % sub] = (c.get("evals:" + sub, 0), nconf * 100)
     return harness.finish("C20", tier, seed, LEVEL, m, RULE, t0, ASSUME, floors=floors,
